@@ -278,12 +278,29 @@ def r6(cx):
     loops = natural_loops(f)
     upd = [c for c in f.calls() if c.q.endswith("Task::update_data_if_exists")]
     push = [c for c in f.calls() if re.search(r"Vec::<.*>::push$", c.q) and "process::task::Task" in c.full]
-    if len(upd) != 1 or len(push) != 1:
+    # the walk may also be spelled `std::iter::successors(self.parent(), |t| t.parent()).collect()`
+    succ = [c for c in f.calls() if re.search(r"^std::iter::successors(::<.*>)?$|iter::successors(::<.*>)?$", c.q)]
+    succ_form = None
+    if len(upd) == 1 and not push and len(succ) == 1:
+        c0 = succ[0]
+        first = pa.root(f, c0.args[0])
+        cl = pa.root(f, c0.args[1])
+        step_ok = False
+        if cl[0] == "closure" and cl[1] in m.fns:
+            g_ = m.fns[cl[1]]
+            step_ok = any(x.q.endswith("Task::parent") for x in g_.calls()) and len([x for x in g_.calls() if not x.exp]) <= 2
+        start_ok = first[0] == "call" and first[1].endswith("Task::parent") and pa.root(f, Call(f, first[2]).args[0])[:2] == ("param", 1)
+        col = [c for c in f.calls() if re.search(r"Iterator(>)?::collect(::<.*>)?$", c.q) and pa.root(f, c.args[0])[:3] == ("call", c0.q, c0.b)]
+        succ_form = (start_ok and step_ok and len(col) == 1, col[0] if col else None)
+    if len(upd) != 1 or (len(push) != 1 and succ_form is None):
         raise Anchor("update_data: expected one ancestor update and one push of an ancestor")
     # (a) the walk: a loop around the push, left only when `parent` is None, stepping with Task::parent
-    walk = [(h, body) for h, body in loops if push[0].b in body]
+    walk = [(h, body) for h, body in loops if push and push[0].b in body]
     ok = False
     why = "no loop around the push"
+    if succ_form is not None:
+        ok = succ_form[0]
+        why = "successors(self.parent(), |t| t.parent()).collect(): %s" % ok
     if walk:
         h, body = min(walk, key=lambda x: len(x[1]))
         ex = loop_exits(f, h, body)
@@ -294,7 +311,7 @@ def r6(cx):
         pushed = pa.root(f, push[0].args[1])
         ok = len(ex) == 1 and ex[0][0] == h and on_parent and len(steps) >= 1 and f.dominates(push[0].b, steps[0].b)
         why = "exits %s, steps %d" % (ex, len(steps))
-    cx.ob("C07.R6", "update_data:walk", ok, "update_data collects every ancestor: the walk pushes each task and steps to its parent until there is none (%s)" % why, push[0].loc)
+    cx.ob("C07.R6", "update_data:walk", ok, "update_data collects every ancestor: the walk pushes each task and steps to its parent until there is none (%s)" % why, (push[0] if push else succ[0]).loc)
     # (b) the update loop over the collected ancestors: plain iteration, left only when the iterator ends
     wl = [(h, body) for h, body in loops if upd[0].b in body]
     ok = False
@@ -310,7 +327,7 @@ def r6(cx):
             src = pa.iter_source(f, ("call", inner.q, inner.b, ()))
             if src is not None:
                 plain = all(re.search(r"::iter$|::into_iter$|Iterator>::rev$|Iterator::rev$|Deref>::deref$", a) for a in src[2])
-                vec = pa.root(f, push[0].args[0])
+                vec = pa.root(f, push[0].args[0]) if push else (("call", succ_form[1].q, succ_form[1].b, ()) if succ_form and succ_form[1] else None)
                 over_refs = src[0][:2] == vec[:2]
         only_end = False
         if inner is not None and len(ex) == 1:
